@@ -30,7 +30,7 @@ DESIGN_REF = "DESIGN.md §3 C10"
 KF1 = "pickle-self-reachable-tuple"
 RULE = (
     "Worlds built by generated histories (cycles, self-loops, parallel links, None ends, 0-3 universes incl. nested "
-    "and self-member, importable Vertex/edge subclasses incl. falsy ones, a multiply-inheriting one and one that hashes by uid, law sets with whitelists), with runtime attributes on "
+    "and self-member, importable Vertex/edge subclasses incl. falsy ones, a multiply-inheriting one, one that hashes by uid and (protocol >= 2) one keeping an attribute in a __slots__ slot, law sets with whitelists), with runtime attributes on "
     "vertices, links and universes drawn from scalars (ints incl. > 2^63, floats incl. nan/inf/-0.0, str, bytes, "
     "bool, None, str/bytes/bytearray payloads above 64 KiB), lists/dicts/tuples/sets nested to depth 3, dicts keyed by / sets of graph objects, references to graph objects and a pool of SHARED "
     "containers attached to several holders; graphs queried before pickling (full battery: warm neighbor caches and any other memo queries may leave); root in {universe, vertex, link, list of "
@@ -111,7 +111,7 @@ def strategy(tier):
     op = st.tuples(st.sampled_from(OPS_W), st.integers(0, 11), st.integers(0, 11), st.integers(0, 47))
     world = st.builds(
         lambda nv, nuni, ops, laws, shared, attrs, warm, root, proto, loader, via_file, fd, fl, muts: {
-            "t": "world", "vcls": [(len(attrs) + proto) % 6, (nv + root) % 6, 5 * (proto % 2)], "nv": nv, "nuni": min(nuni, nv - 1), "ops": [list(o) for o in ops], "laws": laws,
+            "t": "world", "vcls": [(len(attrs) + proto) % 6, (nv + root) % 6, 5 * (proto % 2)] + ([99] if proto >= 2 and (nv + len(attrs)) % 3 == 0 else []), "nv": nv, "nuni": min(nuni, nv - 1), "ops": [list(o) for o in ops], "laws": laws,
             "shared": shared, "attrs": [list(a) for a in attrs], "warm": warm, "root": root, "proto": proto,
             "loader": loader, "via_file": via_file, "flag_dump": fd, "flag_load": fl, "muts": [list(m) for m in muts],
         },
